@@ -371,8 +371,11 @@ class SgzConverter(SgzReader):
                                        u*self.chunk_bytes + (z+1)*self.unit_bytes]
                         outfile.write(new_block)
             self.read_variant_headers(include_padding=True)
-            for k, header_array in self.variant_headers.items():
+            # In the order of the header-word table (the order in which the reader assigns the arrays their offsets),
+            # not the order in which earlier queries on this object happened to load them
+            for k in self.stored_header_keys:
                 if self.hw_info.table[k][1] == k:
+                    header_array = self.variant_headers[k]
                     outfile.write(header_array.tobytes() +
                                   bytes(self.padded_header_entry_length_bytes - self.header_entry_length_bytes))
 
